@@ -966,6 +966,200 @@ IMMHIST_BOUNDARY = [
 ]
 
 
+
+# ------------------------------------------------------------------------------------------------
+# aliasing: a committed version must not share storage with objects the caller still holds
+# ------------------------------------------------------------------------------------------------
+def make_input(kind, name, c, n):
+    """an object a caller would hand to a write transaction, plus everything mutable it was built from"""
+    import dns.rrset
+
+    rdtype = "TXT" if c % 2 else "A"
+    texts = [(f'"v{c}-{j}"' if rdtype == "TXT" else "10.%d.%d.%d" % (c // 200 % 200, c % 200, j + 1)) for j in range(n)]
+    if kind == "rds":
+        o = dns.rdataset.from_text("IN", rdtype, 60 + c % 5, *texts)
+        return o, [o], (name, o)
+    if kind == "rrset":
+        o = dns.rrset.from_text_list(name, 60 + c % 5, "IN", rdtype, texts)
+        return o, [o], (o,)
+    if kind == "rdlist":
+        lst = [dns.rdata.from_text("IN", rdtype, t) for t in texts]
+        o = dns.rdataset.from_rdata_list(60 + c % 5, lst)
+        return o, [o, lst], (name, o)
+    raise ValueError(kind)
+
+
+MILD = [("add", lambda o: o.add(dns.rdata.from_text("IN", dns.rdatatype.to_text(o.rdtype), '"alias"' if o.rdtype == dns.rdatatype.TXT else "10.99.99.99"))),
+        ("update_ttl", lambda o: o.update_ttl(1)),
+        ("discard", lambda o: o.discard(o[0]))]
+
+
+def mutate_held(o, zone, pool, full):
+    """use the object's own public mutators, as its owner may; yields the name of each mutator applied"""
+    if isinstance(o, list):
+        for what, fn in (("list.append", lambda: o.append(dns.rdata.from_text("IN", "A", "10.99.99.98"))),
+                         ("list.pop", lambda: o.pop(0)), ("list.clear", lambda: o.clear() if full else None)):
+            try:
+                fn()
+            except Exception:  # noqa: BLE001
+                pass
+            yield what
+        return
+    if not full:
+        for what, fn in MILD:
+            try:
+                fn(o)
+            except Exception:  # noqa: BLE001
+                pass
+            yield what
+        return
+    try:
+        methods, mine = mutator_methods(o, zone, pool), own_args(o)
+    except Exception:  # noqa: BLE001 - an object its owner has already wrecked
+        return
+    for m in methods:
+        for args in mine + pool:
+            try:
+                getattr(o, m)(*fresh_args(args))
+            except Exception:  # noqa: BLE001
+                pass
+        yield m
+    for a in public_attrs(o):
+        try:
+            setattr(o, a, 1 if a == "ttl" else None)
+        except Exception:  # noqa: BLE001
+            pass
+        yield f"setattr:{a}"
+
+
+def eval_alias(ctx: Ctx, case: dict):
+    zk = case["zone"]
+    z = ZONES[zk](ORIGIN)
+    z.set_max_versions(None)
+    readers = {}
+    held = []  # (label, object)
+    fails = []
+    pool = short_pool(z)
+    calls = 0
+
+    def snap():
+        return ([dump_version(v) for v in z._versions], {h: dump_txn(t) for h, t in readers.items()})
+
+    def sweep(stage, full):
+        nonlocal calls
+        base = snap()
+        done = set()
+        for label, o in held:
+            if id(o) in done:
+                continue
+            done.add(id(o))
+            for what in mutate_held(o, z, pool, full):
+                calls += 1
+                try:
+                    now = snap()
+                except Exception as e:  # noqa: BLE001
+                    now = ("unreadable", repr(e))
+                if now != base:
+                    who = [h for h in readers if isinstance(now[1], dict) and now[1].get(h) != base[1].get(h)]
+                    vers = [z._versions[i].id for i in range(len(base[0])) if isinstance(now[0], list) and now[0][i] != base[0][i]]
+                    fails.append((f"C11/{zk}/snapshot-stable/aliased:{label.split('#')[0]}",
+                                  f"{stage}: after the caller's own {type(o).__name__}.{what} on the object it {label}, committed version(s) {vers} changed"
+                                  + (f" and open reader(s) {who} observe different content" if who else "")))
+                    return False
+        return True
+
+    ok = True
+    for ti, ops in enumerate(case["txns"]):
+        txn = z.writer(ti == 0)
+        if ti == 0:
+            txn.replace(dns.name.empty, dns.rdataset.from_text("IN", "SOA", 60, "ns1 host 1 1 1 1 1"))
+        for op in ops:
+            kind = op[0]
+            try:
+                if kind in ("rds", "rrset", "rdlist"):
+                    name = TREE_NAMES[op[1]]
+                    o, keep, args = make_input(kind, name, op[2], op[3])
+                    (txn.replace if op[4] else txn.add)(*args)
+                    for x in keep:
+                        held.append((f"handed to txn.{'replace' if op[4] else 'add'} ({kind})#{len(held)}", x))
+                elif kind == "reuse" and held:
+                    label, o = held[op[2] % len(held)]
+                    if isinstance(o, dns.rdataset.Rdataset) and not isinstance(o, dns.rdataset.ImmutableRdataset) and len(o) > 0:
+                        if hasattr(o, "name"):
+                            txn.replace(o)
+                        else:
+                            txn.replace(TREE_NAMES[op[1]], o)
+                elif kind == "wget":
+                    name = TREE_NAMES[op[1]]
+                    node = txn.get_node(name)
+                    if node is not None:
+                        held.append((f"got from the writer's txn.get_node()#{len(held)}", node))
+                        for rds in node:
+                            held.append((f"got from iterating the writer's txn.get_node()#{len(held)}", rds))
+                            held.append((f"got from the writer's txn.get()#{len(held)}", txn.get(name, rds.rdtype, rds.covers)))
+                elif kind == "witer":
+                    for name, rds in txn.iterate_rdatasets():
+                        held.append((f"got from the writer's txn.iterate_rdatasets()#{len(held)}", rds))
+            except (KeyError, ValueError, dns.exception.DNSException):
+                ctx.count("alias.writer-op-refused")
+        txn.commit()
+        if ti in case.get("readers_at", []):
+            readers[ti] = z.reader()
+        ok = sweep(f"after commit {ti + 1}", False)
+        if not ok:
+            break
+    if ok:
+        sweep("after the last commit, every mutator", True)
+    for t in readers.values():
+        try:
+            t.rollback()
+        except Exception:  # noqa: BLE001
+            pass
+    ctx.count(f"alias.{zk}.held-objects", len(held))
+    ctx.count(f"alias.{zk}.mutations", calls)
+    seen = set()
+    for sig, what in fails:
+        if sig not in seen:
+            seen.add(sig)
+            ctx.fail(sig, what, {"kind": "alias", "case": case})
+    return fails
+
+
+def gen_alias(rng, zk):
+    ntx = rng.range(1, 4)
+    txns = []
+    c = rng.below(1000)
+    for ti in range(ntx):
+        ops = []
+        for _ in range(rng.range(1, 4)):
+            x = rng.below(10)
+            c += 1
+            if x < 6 or ti == 0 and x < 8:
+                ops.append([rng.choice(["rds", "rds", "rrset", "rdlist"]), rng.range(1, len(TREE) - 1), c, rng.range(1, 3), rng.below(2)])
+            elif x < 7:
+                ops.append(["reuse", rng.range(1, len(TREE) - 1), rng.below(8)])
+            elif x < 9:
+                ops.append(["wget", rng.range(0, len(TREE) - 1)])
+            else:
+                ops.append(["witer"])
+        if rng.chance(1, 3):
+            ops.append(["wget", ops[0][1]] if ops[0][0] in ("rds", "rrset", "rdlist") else ["witer"])
+        txns.append(ops)
+    readers_at = sorted(set([rng.below(ntx), ntx - 1]))
+    return {"kind": "alias", "zone": zk, "txns": txns, "readers_at": readers_at}
+
+
+ALIAS_BOUNDARY = [
+    # the caller keeps its Rdataset / RRset / rdata list and edits it after the commit, with a reader open
+    [[["rds", 1, 1, 2, 1]], [["rds", 2, 2, 1, 0]]],
+    [[["rrset", 1, 3, 2, 0], ["rdlist", 2, 4, 2, 1]]],
+    # the same object handed in twice, edited in between
+    [[["rds", 1, 5, 2, 1]], [["reuse", 3, 0], ["wget", 1], ["witer"]], [["reuse", 1, 0]]],
+    # objects taken out of the writer before the commit
+    [[["rds", 1, 7, 2, 1], ["wget", 1], ["witer"]], [["rds", 1, 8, 1, 0], ["wget", 1]]],
+]
+
+
 class Hang(Exception):
     pass
 
@@ -988,6 +1182,8 @@ def eval_case(ctx: Ctx, case: dict):
             return eval_immhist(ctx, case)
         if case["kind"] == "fresh":
             return eval_fresh(ctx, case)
+        if case["kind"] == "alias":
+            return eval_alias(ctx, case)
     except Exception as e:  # noqa: BLE001 - e.g. the zone constructor itself raises (the initial version is pruned away)
         import traceback
 
@@ -1131,6 +1327,10 @@ BOUNDARY = [
 
 def generate(ctx: Ctx, scale: int, rng):
     for i in range(60 * scale):
+        c = gen_alias(rng, "btree" if i % 2 else "versioned")
+        ctx.case(case_key(c), True, sample=c if i < 2 else None)
+        eval_case(ctx, c)
+    for i in range(60 * scale):
         c = gen_immhist(rng, "btree" if i % 3 else "versioned")
         ctx.case(case_key(c), True, sample=c if i < 2 else None)
         eval_case(ctx, c)
@@ -1157,6 +1357,12 @@ def run(ctx: Ctx):
             c = {"kind": "immutability", "zone": zk, "fresh": fresh, "extended": extended}
             ctx.case(case_key(c))
             eval_case(ctx, c)
+    for zk in ZONES:
+        for txns in ALIAS_BOUNDARY:
+            c = {"kind": "alias", "zone": zk, "txns": txns, "readers_at": [0, len(txns) - 1]}
+            ctx.case(case_key(c))
+            eval_case(ctx, c)
+            ctx.count("boundary.alias")
     for zk in ZONES:
         for txns in IMMHIST_BOUNDARY:
             for ra in ([0], [len(txns) - 1]):
